@@ -73,6 +73,8 @@ enum Ev {
     Repeat,
     Adv(u64),
     Reconnect,
+    /// a new connection replaces the live one (the old session is dropped, it never sees an end)
+    Replace,
     LinkStatus,
 }
 
@@ -225,6 +227,7 @@ fn full_alphabet() -> Vec<Ev> {
         Adv(SELECT_TIMEOUT),
         Adv(SELECT_TIMEOUT + 1),
         Reconnect,
+        Replace,
         Operate(Obj::A, Same, Src::Master),
         Operate(Obj::A, Skip, Src::Master),
         Select(Obj::A, Same, Src::Master),
@@ -252,6 +255,7 @@ fn reduced_alphabet(o: Obj) -> Vec<Ev> {
         Adv(SELECT_TIMEOUT),
         Adv(1),
         Reconnect,
+        Replace,
         Operate(o, Same, Src::Master),
         Select(o, Same, Src::Master),
         Malformed,
@@ -359,6 +363,10 @@ impl Scenario for C04 {
                 }
                 Ev::Reconnect => {
                     sim.reconnect();
+                    model.on_reconnect();
+                }
+                Ev::Replace => {
+                    sim.connect(false);
                     model.on_reconnect();
                 }
                 Ev::LinkStatus => {
@@ -538,6 +546,7 @@ fn classify_refusal(path: &[usize], alphabet: &[Ev]) -> String {
             Ev::Malformed => tags.push("malformed"),
             Ev::Adv(_) => tags.push("time"),
             Ev::Reconnect => tags.push("reconnect"),
+            Ev::Replace => tags.push("replaced-connection"),
             Ev::LinkStatus => tags.push("link-status"),
             Ev::Operate(_, _, _) => tags.push("operate"),
             Ev::Select(_, _, _) => tags.push("foreign-select"),
